@@ -46,6 +46,10 @@ type Analysis struct {
 	ncalls map[*FuncInfo]int
 	// noPureInline: pure functions whose inlining gives nothing (no counting terms)
 	noPureInline map[*FuncInfo]bool
+	// constant dispatch tables (devirt.go)
+	tables   map[string]*dispatchTable
+	entryOf  map[string]*tblEntry
+	fnExprOf map[string]ast.Expr
 }
 
 // inlinable: a private, non-recursive helper with exactly one call site and a moderate body.
@@ -60,7 +64,7 @@ func (a *Analysis) inlinable(fn *FuncInfo) bool {
 func newAnalysis(p *Program) *Analysis {
 	return &Analysis{Prog: p, Sites: map[string]*Site{}, FnSites: map[*FuncInfo][]*Site{},
 		sums: map[string]*Summary{}, sumFn: map[string]*FuncInfo{}, sumCtx: map[string][]Lit{},
-		undecSeen: map[string]bool{}, callers: map[*FuncInfo][]*Site{}}
+		undecSeen: map[string]bool{}, callers: map[*FuncInfo][]*Site{}, fnExprOf: map[string]ast.Expr{}}
 }
 
 func (a *Analysis) undecided(fn *FuncInfo, n ast.Node, msg string) {
